@@ -25,7 +25,7 @@ MIX: Dict[str, List[str]] = {
     "C07": ["random", "margin", "margin", "cross", "feesliq", "micro_c07"],
     "C08": ["feesliq", "feesliq", "precision", "precision", "random", "micro_c08", "micro_c08"],
     "C09": ["feesliq", "feesliq", "random", "precision"],
-    "C10": ["margin", "margin", "cross", "random", "micro_c10"],
+    "C10": ["margin", "margin", "cross", "random", "micro_c10", "micro_c10", "micro_c07"],
     "C11": ["margin", "margin", "cross", "random", "micro_c07"],
 }
 
@@ -161,6 +161,22 @@ def run_shard(ctx: Context, res: ShardResult) -> None:
 
 def one(prop: str, sc: Dict[str, Any], res: ShardResult, other: collections.Counter) -> xrun.Run:
     r = xrun.run_scenario(sc, res, listing_stride=2 if prop == "C05" else 6)
+    if sc.get("reuse_strategy") and r.ls is not None and not getattr(r, "aborted", None):
+        # the same scenario again on a new exchange built with the *same* lending strategy object (consecutive backtests
+        # sharing one MarginLoans instance): all monitors apply again, and the outcome must be the same
+        if any(a.get("op") == "set_cond" for acts in sc["actions"].values() for a in acts):
+            pass   # conditions were changed during the first run: a second run would start from different conditions
+        else:
+            r2 = xrun.run_scenario(sc, res, listing_stride=6, shared_lending=r.ls)
+            res.count("reuse_runs")
+            for v in r2.viol:
+                r.viol.append(v)
+            k1 = (r.stats["ok_create_loan"], r.stats["rejected_create_loan"], r.stats["auto_borrow_loans"])
+            k2 = (r2.stats["ok_create_loan"], r2.stats["rejected_create_loan"], r2.stats["auto_borrow_loans"])
+            if k1 != k2:
+                r.v("C10", "second_exchange_with_same_strategy_differs",
+                    f"loans granted/rejected/auto-borrowed {k1} on the first exchange, {k2} on a second exchange built with "
+                    f"the same MarginLoans object")
     res.evaluations += 1
     for k, v in r.stats.items():
         res.count(k, v)
